@@ -50,6 +50,8 @@ def make_items(tier, seed):
         w = width_of(t)
         if w <= (8 if tier == "thorough" else 6):
             items.append({"ob": "amplitudes", "type": t})
+    for t in QFIX:
+        items.append({"ob": "const-near-grid", "type": t})
     items.append({"ob": "const_to_qtype", "type": "int"})
     items.append({"ob": "const_to_qtype", "type": "str"})
     for sh in SHAPES[: (len(SHAPES) if tier == "thorough" else 14)]:
@@ -164,6 +166,33 @@ def concrete_items(spec, res, st):
     def finding(kind, what):
         res["findings"].append({"kind": kind, "what": what, "cex": {}, "replayed": True})
 
+    if spec["ob"] == "const-near-grid":
+        # float values an ulp or a rounding error away from a grid point of the type (the results of
+        # folded literals such as 0.41 - 0.16): the compile-time constant and the run-time encoding
+        # of the very same python float must be the same bits (concrete floats; the symbolic obligation
+        # models the payload as a real number and cannot see representation noise)
+        import math
+
+        T = getattr(qlasskit.types, spec["type"], None) or getattr(__import__("qlasskit.types.qfixed", fromlist=["x"]), spec["type"])
+        i_, f_ = [int(x) for x in spec["type"][6:].split("_")]
+        vals = []
+        for k in range(0, 2 ** (i_ + f_), max(1, 2 ** (i_ + f_) // 24)):
+            g = k / 2 ** f_
+            vals += [g, math.nextafter(g, 10.0), math.nextafter(g, -1.0), g + 1e-12, g - 1e-12, g + 3e-10, g - 3e-10]
+        vals += [0.41 - 0.16, 0.96 - 0.46, 1.16 - 0.16, 0.1 + 0.2, 0.3 / 0.1, 0.7 - 0.2, 1.1 + 2.2, 0.35 + 0.4, 2.675 - 0.05]
+        for v in vals:
+            if v < 0 or v >= 2 ** i_:
+                continue
+            try:
+                a = list(T.const(v)[1])
+                b = list(T(v).to_bool())
+            except Exception as e:
+                finding("codec-const", "%s: const / to_bool of %r raises %s: %s" % (spec["type"], v, type(e).__name__, str(e)[:60]))
+                break
+            if a != b:
+                finding("codec-const", "%s: const(%r) = %s but the run-time encoding of the same value is %s" % (spec["type"], v, a, b))
+                break
+        return st.into(res)
     if spec["ob"] == "literal-history":
         seen = []
         for lit in spec["order"]:
@@ -221,7 +250,7 @@ def check_item(spec):
 
     st = Stats()
     res = {"status": "ok", "findings": [], "nontrivial": True}
-    if spec["ob"] in ("literal-history", "interpret-list"):
+    if spec["ob"] in ("literal-history", "interpret-list", "const-near-grid"):
         return concrete_items(spec, res, st)
     tw = symx.twin()
     ob, tn = spec["ob"], spec["type"]
